@@ -81,7 +81,7 @@ func isScratchField(m *core.Model, e ast.Expr) bool {
 	if !ok {
 		return false
 	}
-	return ownerOf(fieldKeyOf(m, sel)) == "slices"
+	return isScratchOwner(m, ownerOf(fieldKeyOf(m, sel))) && isSliceType(m.Info.TypeOf(sel))
 }
 
 func isSliceType(t types.Type) bool {
@@ -290,7 +290,7 @@ func (sc *scratchCtx) analyse(f *core.Func, symbolic *types.Var) (map[int]bool, 
 				}
 			}
 		case *ast.KeyValueExpr:
-			if sc.tainted(f, S, x.Value) && (sc.sinkKey == "" || litFieldKey(m, x) == sc.sinkKey) && (sc.skipSink == nil || !sc.skipSink(litFieldKey(m, x))) {
+			if sc.tainted(f, S, x.Value) && (sc.sinkKey == "" || litFieldKey(m, x) == sc.sinkKey) && (sc.skipSink == nil || !sc.skipSink(litFieldKey(m, x))) && !(sc.src == nil && isScratchOwner(m, ownerOf(litFieldKey(m, x)))) {
 				sink(x, facts, fmt.Sprintf("%s puts %s, which is derived from a scratch buffer of the storage, into a composite literal", f.Name, m.ExprString(x.Value)))
 			}
 		case *ast.ReturnStmt:
